@@ -121,6 +121,8 @@ fn location_menu() -> Vec<Option<&'static str>> {
         Some("ftp://h.test/"),
         Some("mailto:x"),
         Some("http://usr:pw@d.test:8081/u?z=1"),
+        Some("/login?next=http://site.test/back"),
+        Some("rel?u=a://b#c://d"),
     ]
 }
 
@@ -534,7 +536,7 @@ pub fn c09(ctx: &Ctx) -> Report {
     rep.set("response_menu", menu.len() as u64);
     rep.set(
         "rule",
-        format!("breadth-first search over redirect worlds: a state is (URL of the next request, redirects taken) as computed by the RFC 3986 reference; every state is expanded with every response of a {}-response menu (statuses 200/404/300/301/302/303/304/305/306/307/308/399 x 18 Location forms); each transition is a full send() of the real client against a scripted world that replays the path; chains and cycles up to max_redirections+2 for max in {:?}, follow on/off, 2 start URLs; a state is distinct when its (URL, count) pair is new; plus non-http Locations with an authority against a real listener, and every 2-response world run twice from one prepared request (the second send() is the first one over again)", menu.len(), maxes),
+        format!("breadth-first search over redirect worlds: a state is (URL of the next request, redirects taken) as computed by the RFC 3986 reference; every state is expanded with every response of a {}-response menu (statuses 200/404/300/301/302/303/304/305/306/307/308/399 x 20 Location forms); each transition is a full send() of the real client against a scripted world that replays the path; chains and cycles up to max_redirections+2 for max in {:?}, follow on/off, 2 start URLs; a state is distinct when its (URL, count) pair is new; plus non-http Locations with an authority against a real listener, and every 2-response world run twice from one prepared request (the second send() is the first one over again)", menu.len(), maxes),
     );
     rep.assume("an empty Location may either fail or be followed to the base URL (RFC 3986 same-document reference); non-http schemes and unparsable targets may fail with any error kind");
     rep.assume("Location forms on which WHATWG URL parsing and RFC 3986 legitimately differ (backslashes, tabs, 'http:relative') and https targets are outside the menu");
@@ -783,7 +785,10 @@ fn run10(c: &Case10) -> Vec<(String, String)> {
             let ok = abs.scheme.as_deref() == Some("http")
                 && abs.authority.as_deref().map(|a| authority_host_port("http", a)) == Some((host.clone(), port))
                 && abs.path == t.path
-                && abs.query == t.query;
+                && abs.query == t.query
+                // neither the URL's credentials nor its fragment travel in the absolute-form target
+                && !req.target.contains('@')
+                && !req.target.contains('#');
             if !ok {
                 v.push(("hop-target".into(), format!("{desc}: proxied hop {i} should name {u} in absolute form, sent {:?}", req.target)));
             }
